@@ -1802,21 +1802,28 @@ func (x *Exec) renameBack(s *State, cur, all *Term) *State {
 	n := newState(s.ghost.Subst(cur, all))
 	n.trace = s.trace
 	n.steps = s.steps
-	for _, c := range s.mem {
+	var mks []string
+	for k := range s.mem {
+		mks = append(mks, k)
+	}
+	sort.Strings(mks)
+	for _, k0 := range mks {
+		c := s.mem[k0]
 		na := c.addr.subst(cur, all)
 		nv := c.val.subst(cur, all)
-		k := na.key
-		if strings.HasPrefix(c.addr.key, "alloc") && false {
-			_ = k
-		}
 		if c.val.Op == "mapabs" {
 			n.mem["map:"+na.key] = cell{na, nv}
 			continue
 		}
-		if old, ok := n.mem[na.key]; ok && old.val != nv {
-			nv = joinVals(old.val, nv, na.key)
+		// bookkeeping cells ("len:", "fwd:", "epoch:", "famsrc:" ...) keep their prefix
+		k := na.key
+		if k0 != c.addr.key {
+			k = strings.ReplaceAll(k0, cur.key, all.key)
 		}
-		n.mem[na.key] = cell{na, nv}
+		if old, ok := n.mem[k]; ok && old.val != nv {
+			nv = joinVals(old.val, nv, k)
+		}
+		n.mem[k] = cell{na, nv}
 	}
 	vac := s.vac[all.key]
 	// facts: F(all) survives only if F(cur) also holds on this path (or all is vacuous)
@@ -2085,11 +2092,12 @@ func substState(s *State, from, to *Term) *State {
 			nv = nv.subst(from, to)
 		}
 		// keys are the address key, possibly behind a prefix (len:, epoch:, map:)
-		pre := ""
 		if strings.HasSuffix(k, c.addr.key) {
-			pre = strings.TrimSuffix(k, c.addr.key)
+			n.mem[strings.TrimSuffix(k, c.addr.key)+na.key] = cell{na, nv}
+		} else {
+			// keyed by something else than the address (identity of a made slice)
+			n.mem[strings.ReplaceAll(k, from.key, to.key)] = cell{na, nv}
 		}
-		n.mem[pre+na.key] = cell{na, nv}
 	}
 	for k, v := range s.facts {
 		t := s.fterm[k].subst(from, to)
